@@ -381,3 +381,87 @@ def underscore_walker_rule(crate, prop, rule="C14.R8"):
 def type_param_walker_rule(crate, prop, rule="C16.R8"):
     return type_walker_rule(crate, prop, rule, "used_type_params", "given its `TS` bound", "param",
                             "the generated where-clause bounds every type parameter a field uses, at every depth (array, none-delimited group from a `$t:ty` fragment, paren, reference, slice, tuple, path arguments, the self type of a qualified path)")
+
+
+def mentions_field(body, op, type_rx, field, steps=60):
+    """does the operand derive (through moves, borrows, derefs and identity-like calls) from `<value of a type matching
+    type_rx>.<field>`?"""
+    pl = op_place(op)
+    if pl is None:
+        return False
+    seen, todo = set(), [(pl["l"], tuple(pl["p"]))]
+    while todo and steps > 0:
+        steps -= 1
+        l, pj = todo.pop()
+        if (l, pj) in seen:
+            continue
+        seen.add((l, pj))
+        if field in pj and re.search(type_rx, body.local_ty(l)):
+            return True
+        for bb, i, d in M.def_sites(body, l):
+            if body.is_cleanup(bb):
+                continue
+            if i == "term":
+                if fn_matches(d, *M.IDENTITY_CALLS) and d["args"] and op_place(d["args"][0]) is not None:
+                    p2 = op_place(d["args"][0])
+                    todo.append((p2["l"], tuple(p2["p"])))
+            else:
+                rv = d["rv"]
+                p2 = op_place(rv["op"]) if rv["k"] in ("use", "cast") else rv.get("pl") if rv["k"] in ("ref", "rawptr") else None
+                if p2 is not None:
+                    todo.append((p2["l"], tuple(p2["p"])))
+    return False
+
+
+def where_clause_rule(crate, prop, rule="C16.R11"):
+    """what the generated impl mentions under `as TS`, the where-clause bounds"""
+    from rules import panics
+    from rules.field_rules import _edge_constraints
+    from rules.export_rules import _bool_switch
+    r = Result(rule, "the generated where-clause bounds (a) every type parameter that is not made concrete - name() mentions all of them, whether a field uses them or not: generate_where_clause (helpers and closures included) walks Generics::type_params() and tests membership in the `concrete` map - and (b) a projection `<X as Tr>::Assoc` itself: used_type_params records the type it was given on the path where `qself` is present, but (c) only behind a test that involves the projection's self type (for `<Vec<T> as TS>::X` the bound on T is all that is needed, and an explicit bound on the projection makes the derive fail)")
+    wf = crate.body("generate_where_clause")
+    uf = crate.body("used_type_params")
+    if wf is None or uf is None:
+        r.fail(prop, "anchor-missing generate_where_clause", "not found")
+        return r
+    wg = [b for b in crate.bodies if b.path in crate.owned_by("generate_where_clause")]
+    tp = any(fn_matches(t, r"Generics::type_params$") for b in wg for _, t in b.calls())
+    ck = any(fn_matches(t, r"HashMap::<K, V, S(, A)?>::contains_key$", r"HashMap::<K, V, S(, A)?>::get$") and "Ident" in (t.get("arg_tys") or ["", ""])[0] for b in wg for _, t in b.calls())
+    all_params = tp and ck
+    r.inst(fn=wf.path, bounds_every_named_parameter=bool(all_params))
+    if not all_params:
+        r.fail(prop, "where-clause-omits-unused-params generate_where_clause",
+               "only parameters found in field types are bounded, but name() uses `<T as TS>::name()` for every non-concrete parameter: `struct H<T> { id: u32, #[ts(skip)] m: PhantomData<T> }` does not compile (E0277 `T: TS`)", wf.file(), wf.line())
+    b = crate.inlined(uf)
+    inserts = []
+    for blk, t in b.calls():
+        if b.is_cleanup(blk) or not fn_matches(t, r"collections::HashSet::<T, S(, A)?>::insert$") or len(t["args"]) < 2:
+            continue
+        desc, root = panics.operand_origin_ex(b, t["args"][1])
+        if desc.startswith("param") and root == 2:
+            inserts.append((blk, t))
+    proj_ins = [(blk, t) for blk, t in inserts if any(re.search(r"\.qself$", s) and v == 1 for s, v in _edge_constraints(b, blk))]
+    proj = bool(proj_ins)
+    over = False
+    for blk, t in proj_ins:
+        guarded = False
+        for cb, ct in b.calls():
+            if b.is_cleanup(cb) or not (fn_matches(ct, r"HashSet::<T, S(, A)?>::contains$", r"ops::Fn(Mut|Once)?::call(_mut|_once)?$", r"ops::function::Fn") or (ct.get("fn") or {}).get("path", "").endswith("is_type_param")):
+                continue
+            if not any(mentions_field(b, a, r"syn::QSelf", ".ty") or re.search(r"QSelf\.ty$|\.qself$", panics.operand_origin(b, a)) for a in ct["args"] if op_place(a) is not None):
+                continue
+            sw = _bool_switch(b, cb)
+            if sw and sw[1] is not None and b.dominates(sw[1], blk):
+                guarded = True
+        if not guarded:
+            over = True
+    r.inst(fn=uf.path, records_the_projection_itself=proj, projection_bound_limited_to_parameter_self_types=not over)
+    if over:
+        f, l = M.user_span(proj_ins[0][1]["span"])
+        r.fail(prop, "where-clause-bounds-normalisable-projection used_type_params",
+               "every projection over anything that mentions a parameter gets a bound, also `<Vec<T> as TS>::OptionInnerType`: `#[ts(optional_fields)] struct P<T> { rest: Vec<T> }` then fails with E0277 although `T: TS` is all that is needed", f, l)
+    if not proj:
+        r.fail(prop, "where-clause-omits-projection used_type_params",
+               "for `<X as Tr>::Assoc` only the parameters inside X are bounded, not the projection: `#[ts(optional_fields)] struct O<T> { t: T }` renders `<<T as TS>::OptionInnerType as TS>::name()` and does not compile", uf.file(), uf.line())
+    r.floor = 2
+    return r
